@@ -22,7 +22,7 @@ def check(run):
 
     def wline(op, s, lim, mid, path, idx, x, e):
         return f"{op} {hex(s)} {hex(lim)} {hex(mid)} {','.join(hex(p) for p in path) or '-'} {hx(bytes(idx))} {hex(x)} {hex(e)}"
-    N = 60 if quick else 1500
+    N = 240 if quick else 3000
     for k in range(N):
         s = rng.choice(FB + [rand_fr(rng)] * 3)
         lim = rng.choice([1, 2, 100, 2**16, rand_fr(rng) or 1])
